@@ -17,7 +17,7 @@ def ConstsOk : Prop :=
   Gen.probeTemplate = [':', '%', 's', ' ', '%', 's', ' ', '%', 's', ' ', ':', '%', 's', '\r', '\n'] ∧
   Gen.probePayload = ['.'] ∧
   Gen.countTemplate = ['(', '%', 'i', ' ', '%', 's', ')'] ∧ Gen.joinTemplate = ['%', 's', ' ', '%', 's'] ∧
-  Gen.nickPrefixTemplate = ['%', 's', ':', ' ', '%', 's'] ∧ Gen.colorDigits = 2
+  Gen.nickPrefixTemplate = ['%', 's', ':', ' ', '%', 's'] ∧ Gen.colorDigits = 2 ∧ Gen.minWrapSize = 4
 
 instance : Decidable ConstsOk := by unfold ConstsOk; exact inferInstance
 
@@ -453,5 +453,24 @@ theorem wrapLoop_ne (hc : ConstsOk) (size : Nat) (h4 : 4 ≤ size) :
         · exact hws' x hx
       · simp only [wrapLoop, hlong, ↓reduceIte] at h
         exact ih ws _ out h hws' (Or.inr (addWord_ne hl hw (by omega)))
+
+theorem minWrapSize_eq (hc : ConstsOk) : Gen.minWrapSize = 4 := by
+  unfold ConstsOk at hc
+  exact hc.2.2.2.2.2.2.2.2.2.2.2.2.2.2.2
+
+/-- `byteTextWrap` with a size of at least 4 is the loop on that size -/
+theorem byteTextWrap_eq (hc : ConstsOk) (chunks : List Str) (size : Nat) (h4 : 4 ≤ size) :
+    byteTextWrap chunks size = wrapLoop size (fuelFor chunks) chunks [[]] := by
+  unfold byteTextWrap
+  rw [minWrapSize_eq hc, Nat.max_eq_left h4]
+
+/-- `byteTextWrap` with ANY size (0 stands for the negative sizes the callers can produce): the loop
+runs with `max size 4` -/
+theorem byteTextWrap_clamped (hc : ConstsOk) (chunks : List Str) (size : Nat) :
+    byteTextWrap chunks size = byteTextWrap chunks (max size 4) := by
+  unfold byteTextWrap
+  rw [minWrapSize_eq hc]
+  congr 1
+  omega
 
 end C12
